@@ -153,7 +153,7 @@ def run_spec(spec: dict) -> list[dict]:
     for k, lr in enumerate(rec.loaded_runs):
         for i, e in enumerate(lr["events"]):
             e["i"] = i + 1
-        loaded.append({"name": spec.get("name", "") + f"_loaded{k}", "status": lr["status"], "info": "", "events": lr["events"],
+        loaded.append({"name": spec.get("name", "") + (f"_copied{k}" if lr.get("kind") == "copied" else f"_loaded{k}"), "status": lr["status"], "info": "", "events": lr["events"],
                        "spec": spec, "dump_event": lr["dump_event"]})
     out["loaded"] = loaded
     return out
